@@ -379,7 +379,7 @@ func classMatches(class, pat string) bool {
 	if class == pat {
 		return true
 	}
-	if strings.HasPrefix(class, pat) && len(class) > len(pat) && (class[len(pat)] == '.' || class[len(pat)] == '#') {
+	if strings.HasPrefix(class, pat) && len(class) > len(pat) && (class[len(pat)] == '.' || class[len(pat)] == '#' || class[len(pat)] == '@') {
 		return true
 	}
 	return false
@@ -398,6 +398,7 @@ type State struct {
 	inQuant int
 	trace   []string
 	noSide  bool // spec evaluation: do not add side assumptions
+	param   *paramHeap
 }
 
 type dirtyObj struct {
@@ -439,28 +440,11 @@ func (st *State) assume(t Term) {
 
 // classTerm returns the current array term of a heap class.
 func (x *Exec) classTerm(st *State, class string, idxArity int, elSort string) Term {
-	if t, ok := st.heap[class]; ok {
-		return t
-	}
-	ep := 0
-	for i := len(st.epochs) - 1; i >= 0; i-- {
-		if st.epochs[i].matches(class) {
-			ep = st.epochs[i].id
-			break
-		}
-	}
 	sort := elSort
 	for i := 0; i < idxArity; i++ {
 		sort = arr(sInt, sort)
 	}
-	name := quoteSym(fmt.Sprintf("H:%s@%d", class, ep))
-	x.decls.add(name, fmt.Sprintf("(declare-const %s %s)", name, sort))
-	t := Term{name, sort}
-	st.heap[class] = t
-	if _, ok := x.classes[class]; !ok {
-		x.classes[class] = classInfo{idxArity, elSort}
-	}
-	return t
+	return x.classTermSort(st, class, sort)
 }
 
 type classInfo struct {
@@ -529,7 +513,11 @@ func (x *Exec) load(st *State, p Ptr, t types.Type) Val {
 	if srt == sBV64 { // heap cells hold mathematical ints; no bridge in bv mode
 		fail("bv64 mode: integer load from heap (%s) unsupported", p.Prefix)
 	}
-	return Sc{x.def(st, "ld", x.readLeaf(st, p.Prefix, p.Idx, srt)), t}
+	r := x.def(st, "ld", x.readLeaf(st, p.Prefix, p.Idx, srt))
+	if x.prog.specs.Owned[p.Prefix] {
+		x.own[r.S] = p.Prefix
+	}
+	return Sc{r, t}
 }
 
 // store writes v to location p.
